@@ -641,7 +641,7 @@ C16_RULE = ('tapes generated (rapidcheck, seed-derived) by the C01/C03/C04 gener
             '= {c++11,14,17,20} x {AMC_NONSTD_FEATURES on,off} x {NDEBUG, assertions} x {-O0,-O2} without sanitizer (quick: 8-build pairwise covering '
             'subset, thorough: all 32); oracle: byte-identical transcripts (effective op, contents, size, capacity after every op) and no model violation '
             'in any build; absence of the extras in pedantic builds is probed by SFINAE detection, of smallset.hpp before C++17 by a failing compile; the same probe prints compile-time facts (sizeof, alignof, noexcept of move/swap, trivially_relocatable, '
-            'trivially destructible for 14 element types x 11 container types) that must be identical in every build; '
+            'trivially destructible for 14 element types x 11 container types) that must be identical in every build, and the bytes stored by converting range operations (20 source/destination type pairs x 4 flavours x constructor/assign/insert x pointer/list sources) that must equal element-wise conversion and be identical in every build; '
             'the standard interface (23 vector members, 12 set members) is callable in every build; the C13 swap2 pair grid for int elements gives the same verdicts as C++11/14/17/20; '
             'non-trivial = tape with a boundary feature (C01/C03/C04 rule) replayed by builds of >= 2 language levels; distinct = distinct (config, transcript)')
 
